@@ -90,9 +90,9 @@ func vDumpLoad(mutateAfterDump bool, intoReset bool) {
 	vreach("end")
 }
 
-func VerifC17_DumpLoadFresh()        { vDumpLoad(false, false) }
-func VerifC17_DumpLoadSnapshot()     { vDumpLoad(true, false) }
-func VerifC17_DumpLoadIntoReset()    { vDumpLoad(false, true) }
+func VerifC17_DumpLoadFresh()     { vDumpLoad(false, false) }
+func VerifC17_DumpLoadSnapshot()  { vDumpLoad(true, false) }
+func VerifC17_DumpLoadIntoReset() { vDumpLoad(false, true) }
 func VerifC17_DumpLoadEmpty() {
 	w := NewWorld(1)
 	d := w.Unsafe().DumpEntities()
